@@ -1,3 +1,74 @@
 import TlsModel.Proto
-/- driver stub for C18: replaced when the model exists -/
-def main : IO Unit := Tls.protoMain (fun _ => none)
+import TlsModel.Cache
+/-
+  Driver for C18 (stateful): one SessionCache model object and the specification log side by side.
+    new maxEntries maxAge      -> ok                      (fresh object; maxAge may be negative)
+    set id t sess              -> <impl> <spec>           done | internal:<err>
+    get id t                   -> <impl> <spec>           sess:<n> | KeyError | internal:<err>
+    inval sess                 -> done done
+    size                       -> dictLen countLen liveLen firstIndex lastIndex
+    dict                       -> id:sess,... (sorted by id) or -
+  ids, sessions: naturals; times: integers.
+-/
+open Tls Tls.Cache
+
+structure DState where
+  cap : Nat
+  maxAge : Int
+  impl : ImplState
+  spec : SpecState
+
+def DState.fresh (cap : Nat) (maxAge : Int) : DState :=
+  { cap := cap, maxAge := maxAge,
+    impl := { cache := Cache.new cap maxAge, inval := [] },
+    spec := { log := [], inval := [] } }
+
+def errName : Err → String
+  | .keyError => "keyError"
+  | .removeKeyError => "removeKeyError"
+  | .indexError => "indexError"
+  | .noneSlot => "noneSlot"
+  | .zeroDivision => "zeroDivision"
+  | .fuel => "fuel"
+
+def outName : Out → String
+  | .done => "done"
+  | .sess s => s!"sess:{s}"
+  | .keyError => "KeyError"
+  | .internal e => "internal:" ++ errName e
+
+def doOp (st : DState) (op : Op) : DState × Option String :=
+  let (i, oi) := st.impl.step op
+  let (s, os) := st.spec.step st.cap st.maxAge op
+  ({ st with impl := i, spec := s }, some (outName oi ++ " " ++ outName os))
+
+def insertSorted (p : Nat × Nat) : List (Nat × Nat) → List (Nat × Nat)
+  | [] => [p]
+  | q :: r => if p.1 ≤ q.1 then p :: q :: r else q :: insertSorted p r
+
+def handle (st : DState) : List String → DState × Option String
+  | ["new", cap, age] =>
+    match cap.toNat?, age.toInt? with
+    | some cap, some age => (DState.fresh cap age, some "ok")
+    | _, _ => (st, none)
+  | ["set", id, t, s] =>
+    match id.toNat?, t.toInt?, s.toNat? with
+    | some id, some t, some s => doOp st (.set id t s)
+    | _, _, _ => (st, none)
+  | ["get", id, t] =>
+    match id.toNat?, t.toInt? with
+    | some id, some t => doOp st (.get id t)
+    | _, _ => (st, none)
+  | ["inval", s] =>
+    match s.toNat? with
+    | some s => doOp st (.inval s)
+    | _ => (st, none)
+  | ["size"] =>
+    let c := st.impl.cache
+    (st, some s!"{c.dict.length} {c.count.length} {c.liveLen} {c.first} {c.last}")
+  | ["dict"] =>
+    let l := st.impl.cache.dict.foldr insertSorted []
+    (st, some (if l.isEmpty then "-" else ",".intercalate (l.map fun (k, v) => s!"{k}:{v}")))
+  | _ => (st, none)
+
+def main : IO Unit := Tls.protoMainS handle (DState.fresh 1 0)
